@@ -237,3 +237,35 @@ keep("V03", ALL, [("simulate.py", "        dense_argmax, sparse_argmax, value = 
 keep("V03b", ALL, [("simulate.py", "            _period=jnp.repeat(period, n_initial_states),",
                     "            _period=jnp.repeat(period, len(next(iter(initial_states.values())))),", 1)],
      why="n_initial_states spelled out")
+
+# ------------------------------------------------------------------------------ R7 / R8
+brk("E01", ["C09"], "solve_brute.py", "import jax\n\nfrom lcm.dispatchers import spacemap\n",
+    "import jax\n\nfrom lcm.dispatchers import spacemap\n\n_SOLUTIONS = {}\n", "module-level cache of solutions (part 1: harmless alone)",
+    ).update({"edits": [
+        {"file": "solve_brute.py", "old": "import jax\n\nfrom lcm.dispatchers import spacemap\n", "new": "import jax\n\nfrom lcm.dispatchers import spacemap\n\n_SOLUTIONS = {}\n", "count": 1},
+        {"file": "solve_brute.py", "old": "    return list(reversed(reversed_solution))", "new": "    _SOLUTIONS[len(_SOLUTIONS)] = reversed_solution\n    return list(reversed(reversed_solution))", "count": 1},
+    ]})
+brk("E02", ["C09"], "input_processing/process_model.py", "raw_functions = deepcopy(model.functions)", "raw_functions = dict(model.functions)",
+    "deepcopy removed")
+brk("E03", ["C09"], "input_processing/process_model.py", 'return func(**_kwargs, **kwargs["params"][name])', "return func(**_kwargs, **params[name])",
+    "closure reads the captured template")
+brk("E04", ["C09"], "entry_point.py", "solve_model = jax.jit(_solve_model) if jit else _solve_model",
+    'solve_model = jax.jit(_solve_model, static_argnames="params") if jit else _solve_model', "static params")
+brk("E05", ["C09"], "solve_brute.py", "import jax\n", "import functools\n\nimport jax\n").update({"edits": [
+    {"file": "solve_brute.py", "old": "import jax\n", "new": "import functools\n\nimport jax\n", "count": 1},
+    {"file": "solve_brute.py", "old": "def solve_continuous_problem(", "new": "@functools.lru_cache\ndef solve_continuous_problem(", "count": 1},
+]})
+brk("E06", ["C09"], "simulate.py", "    vf_arr_list = vf_arr_list[1:] + [None]\n", "    vf_arr_list.pop(0)\n    vf_arr_list.append(None)\n",
+    "caller's value array list shifted in place")
+brk("E07", ["C09"], "input_processing/create_params_template.py", "    return default_params | function_params | stochastic_transition_params",
+    "    default_params.update(function_params)\n    default_params.update(stochastic_transition_params)\n    return default_params",
+    "mutable default argument mutated and returned")
+brk("O01", ["C05", "C10"], "input_processing/util.py", "    if set(order) != set(info.index):", "    order = sorted(order)\n    if set(order) != set(info.index):",
+    "canonical order sorted by name")
+brk("O02", ["C09"], "model_functions.py", "            kwargs = all_as_kwargs(args, kwargs, arg_names=arg_names)\n\n            states = {k: v for k, v in kwargs.items() if k in state_variables}\n            choices = {k: v for k, v in kwargs.items() if k in choice_variables}\n\n            return current_u_and_f(",
+    "            args = all_as_args(args, kwargs, arg_names=arg_names)\n            kwargs = dict(zip(arg_names, args, strict=True))\n\n            states = {k: v for k, v in kwargs.items() if k in state_variables}\n            choices = {k: v for k, v in kwargs.items() if k in choice_variables}\n\n            return current_u_and_f(",
+    "hash-ordered arg_names interpreted positionally")
+brk("O03", ["C09", "C10"], "solve_brute.py", "        dense_vars=list(state_choice_space.dense_vars),", "        dense_vars=list(set(state_choice_space.dense_vars)),",
+    "dense axes in hash order")
+brk("O04", ["C10", "C17"], "state_space.py", "    _axis_names = [name for name in model.grids if name in subset]\n    _filter_names",
+    "    _axis_names = sorted(subset)\n    _filter_names", "mask axes in alphabetical order")
